@@ -585,9 +585,12 @@ func (ex *executor) applyContract(st *state, c *Contract, key string, names []st
 		t := ex.evalBoolEnv(en, env)
 		ex.assume(st, t)
 	}
-	for _, en := range c.Records {
+	for i, en := range c.Records {
 		t := ex.evalBoolEnv(en, env)
 		ex.assume(st, t)
+		if en.Assumed {
+			r.abstracted["assumed (unchecked) postcondition of "+short+": "+clauseLabel(en, i)]++
+		}
 	}
 	for _, u := range c.Unfolds {
 		ex.applyUnfoldEnv(u, env)
